@@ -5,7 +5,10 @@
 From Coq Require Import List Bool.
 Import ListNotations.
 
-Inductive src := SDataset | SSample | SSlow | SHttp | SHttpMid.
+Inductive src := SDataset | SSample | SSlow | SHttp | SHttpMid | SProxy | SUnion.
+(* SProxy: DatasetSource on a proxy dataset (timeoutSeconds 1) whose remote accepts the request and stays silent;
+   SUnion: UnionDatasetSource over [a; b] whose stored token comes from an earlier run of the same job id over
+   [a; b; c] (the job was re-defined with fewer members) *)
 (* SHttp / SHttpMid: HttpDatasetSource on a remote data layer; when the job is killed the remote is stalling before the
    response (SHttp) or in the middle of the body (SHttpMid) *)
 Definition killable (s : src) : bool := match s with SSlow | SHttp | SHttpMid => true | _ => false end.
@@ -20,6 +23,10 @@ Definition has_transform (t : tr) : bool := match t with TNone | TNoCode => fals
 Inductive snk := KDevNull | KDataset | KMissing. (* KMissing: DatasetSink on a dataset that does not exist *)
 Inductive trig := GCron | GOnChange.
 Inductive jt := JIncr | JFull.
+(** the source fails before anything is read: the proxy request times out; the union source refuses a token with a
+    different number of members (an incremental run - a fullsync starts from an empty token) *)
+Definition src_fails (s : src) (j : jt) : bool :=
+  match s, j with SProxy, _ => true | SUnion, JIncr => true | _, _ => false end.
 Inductive hset := HNone | HLog | HRerun | HLogRerun | HBad | HLogCap. (* HLogCap: "Log", HBad: unknown type *)
 
 Record cfg := {
@@ -60,7 +67,7 @@ Definition handler_nil (v : jvariant) (c : cfg) : bool := has_log v c && negb (h
     workers share one goja runtime - a data race.  The outcome of such a run is not determined (observed: index out of
     range / nil dereference in a worker goroutine, which kills the process; or no visible damage). *)
 Definition racy (v : jvariant) (c : cfg) : bool :=
-  negb (fix_clone v) && accepted v c && has_log v c && negb (c_kill c)
+  negb (fix_clone v) && accepted v c && has_log v c && negb (c_kill c) && negb (src_fails (c_src c) (c_jt c))
   && (match c_tr c, c_jt c with TJsPar, JIncr => true | _, _ => false end).
 
 Inductive sres := SOk | SErr | SInterrupt | SPanic | SDiverge.
@@ -77,6 +84,7 @@ Definition sync (v : jvariant) (c : cfg) : sres * bool (* wrappedSink.lastError 
             | _ => (SInterrupt, false)
             end)
       else
+      if src_fails (c_src c) (c_jt c) then (SErr, false) else
       (* transform stage of the first page *)
       if (match c_tr c, c_jt c with
           | TPanic, _ => true
@@ -148,7 +156,7 @@ Definition run_job (v : jvariant) (c : cfg) : out :=
     end.
 
 (** the lattice *)
-Definition all_src := [SDataset; SSample; SSlow; SHttp; SHttpMid].
+Definition all_src := [SDataset; SSample; SSlow; SHttp; SHttpMid; SProxy; SUnion].
 Definition all_tr := [TNone; TJs; TJsPar; TPanic; TEmpty; TNoCode].
 Definition all_snk := [KDevNull; KDataset; KMissing].
 Definition all_trig := [GCron; GOnChange].
@@ -183,6 +191,7 @@ Definition dies_current (c : cfg) : bool :=
      then nilrerun
      else if c_kill c
      then (match c_src c with SHttp | SHttpMid => nilrerun | _ => false end)
+     else if src_fails (c_src c) (c_jt c) then nilrerun
      else ((match c_tr c, c_jt c with TPanic, _ => true | TJsPar, JIncr => true | _, _ => false end)
               || (has_log jcurrent c
                   && ((match c_snk c, c_trig c with KMissing, GOnChange => negb tempty || nilrerun | _, _ => false end)
